@@ -51,7 +51,9 @@ def read_direction_map():
     fn = [n for n in cls[0].body if isinstance(n, ast.FunctionDef) and n.name == "move"]
     if len(fn) != 1:
         raise _Broken("Grid2DMovingAgent.move not found")
-    src = ast.unparse(fn[0])
+    import pyexpr
+
+    src = "\n".join(pyexpr.normalized_statements(fn[0]))     # modulo local names, docstring, comments, formatting
     if "self.DIRECTION_MAP[direction]" not in src or "direction.lower()" not in src:
         raise _Broken("Grid2DMovingAgent.move no longer reads self.DIRECTION_MAP[direction.lower()]")
     return out
